@@ -386,6 +386,10 @@ class Engine:
                 self.note_daemon_tip()
                 self.bump('ev_mine')
             elif k in ('fork', 'fork_at_call'):
+                if k == 'fork_at_call':
+                    # first give the server a batch to fetch, then (below) schedule the switch to land inside it
+                    grow_chain(w, ev.get('pre', 2), rng, rich=False)
+                    self.note_daemon_tip()
                 depth = max(1, min(ev['depth'], w.height() // 2))   # statements: chains at least twice as high as the fork is deep
                 newlen = max(1, depth + ev.get('ext', 1))
                 tip = None
@@ -422,9 +426,6 @@ class Engine:
                                 grow_chain(w, need, rng, rich=False)
                                 self.note_daemon_tip()
                     pending_events[at] = do
-                    # make sure the server has something to fetch so that the switch lands mid-batch
-                    grow_chain(w, ev.get('pre', 2), rng, rich=False)
-                    self.note_daemon_tip()
             elif k == 'reorg':
                 n = min(ev['n'], w.height() - 1) if ev.get('force') else min(ev['n'], self.limit, w.height() - 1)
                 if not srv.caught_up():
@@ -507,6 +508,8 @@ def result_of(eng, loop, case, pid, extra_sig=()):
         out['counters'][k] = out['counters'].get(k, 0) + v
     for f in eng.world.features:
         out['counters']['feat_' + f] = 1
+    if len(eng.world.txs) > 300 and eng.mon.c.get('history_backups'):
+        out['counters']['histories_with_txnum_above_255'] = 1
     kinds = KINDS.get(pid)
     seen = set()
     slim = {k: v for k, v in case.items() if k not in ('events',)} | {'events': case.get('events')}
